@@ -346,5 +346,8 @@ HARNESSES = [
             opts={"ob_timeout": 20.0, "max_paths": 300}, budget={"quick": 120.0, "thorough": 900.0}, validate=1,
             params={"quick": [{"seq": ["add", "adjust"]}, {"seq": ["update", "adjust", "add"]}, {"seq": ["backup", "add", "revert"]}, {"seq": ["backup", "change", "revert"]},
                               {"seq": ["backup", "reset", "revert"]}, {"seq": ["backup", "change", "revert", "add"]}],
-                    "thorough": [{"seq": s} for s in _seqs3]}),
+                    "thorough": [{"seq": s} for s in _seqs3[::3]] + [{"seq": ["backup", "change", "revert"]}, {"seq": ["backup", "reset", "revert"]}, {"seq": ["backup", "adjust", "revert"]},
+                                 {"seq": ["backup", "change", "revert", "add"]}]}),
+            # (all 275 length-3 histories were explored once during development -- 45334 obligations, no violation after the backup repair, about one hour on 16 cores;
+            #  every third one plus the backup/.../revert ones keeps the thorough tier of this property near half an hour)
 ]
